@@ -256,10 +256,12 @@ class C17(Engine):
 
         for scenario in kill_only:
             for start in range(1, 400, span):
+                # ... on a LARGE module (value file path, long keys).
                 items.append({'kind': 'sweep', 'scenario': scenario,
                               'mode': 'KILL', 'start': start,
                               'end': start + span, 'stride': 1,
-                              'seed': mix(seed, 'sweep', scenario)})
+                              'large': True,
+                              'seed': mix(seed, 'sweep-large', scenario)})
 
         for scenario in scenarios:
             for mode in ('KILL', 'TORN'):
@@ -452,8 +454,10 @@ class C17(Engine):
 
     # -- scenarios for exhaustive crash sweeps ----------------------------------
 
-    def scenario_case(self, scenario, seed):
-        large = scenario == 3
+    def scenario_case(self, scenario, seed, large=None):
+        if large is None:
+            large = scenario == 3
+
         files, module_name = self.gen_family(mix(seed, 'scenario'), large)
         variants = [rename_variant(files, i) for i in range(2)]
         rng = random.Random(mix(seed, 'scenario-codecs'))
@@ -492,7 +496,8 @@ class C17(Engine):
 
     def run_sweep(self, item):
         result = Result()
-        base = self.scenario_case(item['scenario'], item['seed'])
+        base = self.scenario_case(item['scenario'], item['seed'],
+                                  item.get('large'))
 
         for position, op in enumerate(base['ops']):
             op['index'] = position
